@@ -26,6 +26,7 @@ package mqttproxy
 import (
 	"fmt"
 	"net"
+	"os"
 	"strings"
 	"sync"
 	"sync/atomic"
@@ -261,7 +262,7 @@ func TestVerifC17MqttProxyObject(t *testing.T) {
 				if atomic.LoadInt32(&vfC17ObjInits) >= vfC17ObjInitBudget {
 					break
 				}
-				port = 10000 + (portSeed+li*2741+attempt*7919)%22000
+				port = 10000 + (portSeed+os.Getpid()*131+li*2741+attempt*7919)%22000 // the pid keeps parallel check runs apart
 				cur, _ = start(1000, nil)
 			}
 			if cur == nil {
